@@ -135,9 +135,54 @@ static vh::Op make_op(R&& r, bool thorough, bool allow_burst) {
   return op;
 }
 
+// Bytes of a live span as the model knows them. Small spans are tracked completely; of a large span only the first
+// and the last kWin bytes are tracked (allocator mistakes act on whole granules next to a span boundary; the middle of a
+// multi-block span would only cost time).
+struct Content {
+  static constexpr size_t kFull = 8192, kWin = 2048;
+  size_t n = 0;
+  std::vector<uint8_t> head;   // n <= kFull: all bytes; else the first kWin bytes
+  std::vector<uint8_t> tail;   // n <= kFull: empty;     else the last kWin bytes
+  bool full() const { return n <= kFull; }
+  void snapshot(const uint8_t* mem, size_t size) {
+    n = size;
+    if (full()) { head.assign(mem, mem + n); tail.clear(); }
+    else { head.assign(mem, mem + kWin); tail.assign(mem + n - kWin, mem + n); }
+  }
+  void write(size_t off, const uint8_t* src, size_t len) {
+    size_t hw = head.size();
+    if (off < hw && len) memcpy(&head[off], src, std::min(len, hw - off));
+    if (!full()) {
+      size_t ts = n - kWin, a = std::max(off, ts), b = std::min(off + len, n);
+      if (a < b) memcpy(&tail[a - ts], src + (a - off), b - a);
+    }
+  }
+  // The span shrank to `ns` bytes; `mem` is the current memory, taken as the truth for bytes that were not tracked.
+  void shrink(size_t ns, const uint8_t* mem) {
+    if (ns == n) return;
+    Content c;
+    c.snapshot(mem, ns);
+    c.write(0, head.data(), std::min(head.size(), ns));
+    if (!full() && n - kWin < ns) c.write(n - kWin, tail.data(), ns - (n - kWin));
+    *this = std::move(c);
+  }
+  // index of the first tracked byte that differs, or SIZE_MAX
+  size_t diff(const uint8_t* mem, bool light, uint8_t* want) const {
+    size_t hw = head.size(), hl = (light && hw > 1024) ? 256 : hw;
+    if (memcmp(mem, head.data(), hl) != 0) { size_t i = 0; while (mem[i] == head[i]) i++; *want = head[i]; return i; }
+    if (full()) {
+      if (light && hw > 1024 && memcmp(mem + hw - 256, head.data() + hw - 256, 256) != 0) { size_t i = hw - 256; while (mem[i] == head[i]) i++; *want = head[i]; return i; }
+      return SIZE_MAX;
+    }
+    size_t ts = n - kWin, skip = light ? kWin - 256 : 0;
+    if (memcmp(mem + ts + skip, tail.data() + skip, kWin - skip) != 0) { size_t i = skip; while (mem[ts + i] == tail[i]) i++; *want = tail[i]; return ts + i; }
+    return SIZE_MAX;
+  }
+};
+
 struct SpanM {
   Span span;
-  std::vector<uint8_t> data;
+  Content data;
   void* block = nullptr;
   size_t pos = 0;        // index in Runner::order
   bool shrunk = false;
@@ -194,6 +239,7 @@ struct Runner {
   bool multi = false, fill = false, immediate = false, pad = true, dual = false;
   size_t pools = 1;
   uint8_t pat[4] = {0, 0, 0, 0};
+  uint8_t patpage[4096 + 8];             // the fill pattern repeated (phase 0)
   uint32_t pattern = 0;
 
   std::map<uintptr_t, SpanM> live;       // by rx
@@ -215,9 +261,22 @@ struct Runner {
   bool truncated = false;                // history cut short by a known-finding exclusion
   std::string sample;
   bool want_sample = false;
-  std::string hist;                      // set by the exhaustive mode for messages
+  const std::vector<vh::Op>* hist_ops = nullptr;   // set by the exhaustive mode: the concrete history, for messages
+  std::string hist_text() const;
 
   Runner(vh::Ctx& c, JitAllocator& a) : ctx(c), A(a) {}
+  ~Runner() { flush_classes(); }
+
+  // class counters are collected locally (keyed by the literal's address) and merged into the context once per history
+  std::vector<std::pair<const char*, uint64_t>> counters;
+  void cls(const char* name, uint64_t n = 1) {
+    for (auto& kv : counters) if (kv.first == name) { kv.second += n; return; }
+    counters.emplace_back(name, n);
+  }
+  void flush_classes() {
+    for (auto& kv : counters) ctx.cls(kv.first, kv.second);
+    counters.clear();
+  }
 
   // ------------------------------------------------------------------------------------------------------------
   void note(const char* fmt, size_t a = 0, size_t b = 0) {
@@ -234,17 +293,18 @@ struct Runner {
     vsnprintf(b, sizeof b, fmt, ap);
     va_end(ap);
     std::string m = b;
-    if (!hist.empty()) m += " [history: " + hist + "]";
+    if (hist_ops) m += " [history: " + hist_text() + "]";
     ctx.fail(key, m);
   }
   bool fail_unless_known(const char* key, const char* fmt, ...) __attribute__((format(printf, 3, 4))) {
+    if (ctx.is_known(key)) { ctx.known_excluded(key); return true; }   // counted, history continues
     char b[900];
     va_list ap;
     va_start(ap, fmt);
     vsnprintf(b, sizeof b, fmt, ap);
     va_end(ap);
     std::string m = b;
-    if (!hist.empty()) m += " [history: " + hist + "]";
+    if (hist_ops) m += " [history: " + hist_text() + "]";
     return ctx.fail_unless_known(key, m);
   }
   [[noreturn]] void failc(const char* key, const char* cond, const char* fmt, ...) __attribute__((format(printf, 4, 5))) {
@@ -254,7 +314,7 @@ struct Runner {
     vsnprintf(b, sizeof b, fmt, ap);
     va_end(ap);
     std::string m = std::string(cond) + " :: " + b;
-    if (!hist.empty()) m += " [history: " + hist + "]";
+    if (hist_ops) m += " [history: " + hist_text() + "]";
     ctx.fail(key, m);
   }
 #define CK(cond, key, ...) do { if (!(cond)) failc((key), #cond, __VA_ARGS__); } while (0)
@@ -296,32 +356,24 @@ struct Runner {
   void check_policy(const char* where) {
     size_t limit = immediate ? 0 : pools;
     if (empties() > limit) {
-      ctx.cls("policy_exceeded");
+      cls("policy_exceeded");
       fail_unless_known("empty-blocks-retained", "%s: %zu empty block(s) retained (%zu blocks, %zu live spans), policy allows %zu (%s, %zu pool(s))",
                         where, empties(), Bc, order.size(), limit, immediate ? "immediate release" : "keep one per pool", pools);
     }
   }
 
   // ------------------------------------------------------------------------------------------------------------
-  void cmp_range(const SpanM& sm, const uint8_t* mem, size_t off, size_t n, const char* view, const char* where) {
-    if (memcmp(mem + off, sm.data.data() + off, n) == 0) return;
-    size_t i = off;
-    while (i < off + n && mem[i] == sm.data[i]) i++;
-    failv("content-corrupted", "%s: span size %zu (%s view) byte %zu is 0x%02x, model says 0x%02x (granularity %u)", where, sm.span.size(), view, i, mem[i], sm.data[i], G);
-  }
-
   void check_content(const SpanM& sm, bool full, const char* where) {
     size_t n = sm.span.size();
-    CK(sm.data.size() == n, "harness-internal", "model size %zu vs span %zu", sm.data.size(), n);
+    CK(sm.data.n == n, "harness-internal", "model size %zu vs span %zu", sm.data.n, n);
     const uint8_t* rx = static_cast<const uint8_t*>(sm.span.rx());
     const uint8_t* rw = static_cast<const uint8_t*>(sm.span.rw());
-    if (full || n <= 1024) {
-      cmp_range(sm, rx, 0, n, "rx", where);
-      if (rw != rx) cmp_range(sm, rw, 0, n, "rw", where);
-    } else {
-      cmp_range(sm, rx, 0, 256, "rx", where);
-      cmp_range(sm, rx, n - 256, 256, "rx", where);
-      if (rw != rx) { cmp_range(sm, rw, 0, 64, "rw", where); cmp_range(sm, rw, n - 64, 64, "rw", where); }
+    uint8_t want = 0;
+    size_t i = sm.data.diff(rx, !full, &want);
+    if (i != SIZE_MAX) failv("content-corrupted", "%s: span of %zu bytes (rx view): byte %zu is 0x%02x, model says 0x%02x (granularity %u)", where, n, i, rx[i], want, G);
+    if (rw != rx) {
+      i = sm.data.diff(rw, !full, &want);
+      if (i != SIZE_MAX) failv("content-corrupted", "%s: span of %zu bytes (rw view): byte %zu is 0x%02x, model says 0x%02x (granularity %u)", where, n, i, rw[i], want, G);
     }
   }
 
@@ -344,9 +396,16 @@ struct Runner {
 
   // Is [addr, addr+n) filled with the fill pattern?  (addresses are at least 4-byte aligned relative to the block start)
   void check_filled(const uint8_t* mem, size_t n, const char* key, const char* where) {
+    // compare against a pattern page with the same phase (mod 4) as `mem`
+    const uint8_t* ref = patpage + (uintptr_t(mem) & 3);
     size_t i = 0;
-    for (; i < n; i++) if (mem[i] != pat[(uintptr_t(mem) + i) & 3]) break;
-    if (i == n) return;
+    while (i < n) {
+      size_t c = std::min<size_t>(n - i, 4096);   // 4096 keeps the phase: 4096 % 4 == 0
+      if (memcmp(mem + i, ref, c) != 0) break;
+      i += c;
+    }
+    if (i >= n) return;
+    while (mem[i] == pat[(uintptr_t(mem) + i) & 3]) i++;
     failv(key, "%s: byte %zu of %zu is 0x%02x, fill pattern 0x%08x expects 0x%02x", where, i, n, mem[i], pattern, pat[(uintptr_t(mem) + i) & 3]);
   }
 
@@ -402,7 +461,7 @@ struct Runner {
 
   // ------------------------------------------------------------------------------------------------------------
   size_t decode_size(int64_t cls_, uint64_t k, uint64_t d) const {
-    int cls = int(u(cls_) % 7);
+    int cls = int(u(cls_) % 8);
     size_t g = G, b = B0;
     switch (cls) {
       case 0: return 1 + k % (4 * g);
@@ -415,6 +474,10 @@ struct Runner {
         return t[k % (sizeof(t) / sizeof(t[0]))];
       }
       case 5: return 0;
+      case 7: {   // alphabet of the bounded-exhaustive sweep (first block of a pool is 2 * block_size())
+        const size_t t[] = {1, 2 * g + 1, b, 2 * b - 2 * g, 2 * b - g, 2 * b + 1};
+        return t[k % 6];
+      }
       default: {
         const size_t t[] = {size_t(0x80000000u), size_t(0x80000001u), size_t(0x80000000u) + g, size_t(0xFFFFFFFFu), size_t(0x100000000ull), size_t(0x100000001ull),
                             size_t(0x200000005ull), SIZE_MAX, SIZE_MAX - 1, SIZE_MAX - g + 1, SIZE_MAX - g, SIZE_MAX / 2 + 1, size_t(0x100000000ull) + g};
@@ -426,7 +489,7 @@ struct Runner {
   // ------------------------------------------------------------------------------------------------------------
   SpanM* do_alloc(size_t req, int init, uint64_t seed, const char* where = "alloc") {
     bool must_reject = req == 0 || req > size_t(0x7FFFFFFFu);
-    if (!must_reject && (sum + req > (size_t(40) << 20) || order.size() >= 3000)) { ctx.cls("alloc_skipped_cap"); return nullptr; }
+    if (!must_reject && (sum + req > (size_t(40) << 20) || order.size() >= 3000)) { cls("alloc_skipped_cap"); return nullptr; }
     Span s;
     s._rx = &s; s._rw = &s; s._size = 777;
     Error e = A.alloc(Out(s), req);
@@ -434,7 +497,7 @@ struct Runner {
       CK(e != Error::kOk, "invalid-size-accepted", "alloc(%zu) returned kOk", req);
       CK(s.rx() == nullptr && s.rw() == nullptr && s.size() == 0, "rejected-alloc-returned-span", "alloc(%zu) failed (error %u) but left a span (size %zu)", req, unsigned(e), s.size());
       check_unchanged("alloc(rejected size)");
-      ctx.cls(req == 0 ? "alloc_rejected_zero" : "alloc_rejected_too_large");
+      cls(req == 0 ? "alloc_rejected_zero" : "alloc_rejected_too_large");
       note("A!", 0);
       return nullptr;
     }
@@ -469,8 +532,8 @@ struct Runner {
     auto bit = blocks.find(s._block);
     if (bit != blocks.end()) {
       CK(st.block_count() == Bc, "stat-block-count", "alloc(%zu) into a known block changed block_count() %zu -> %zu", req, Bc, st.block_count());
-      if (bit->second.live == 0) { known_empty--; ctx.cls("alloc_reused_empty_block"); }
-      else ctx.cls("alloc_existing_block");
+      if (bit->second.live == 0) { known_empty--; cls("alloc_reused_empty_block"); }
+      else cls("alloc_existing_block");
       bit->second.live++;
       bit->second.bytes += size;
       CK(bit->second.delta == intptr_t(rw - rx), "views-inconsistent", "alloc(%zu): rw-rx differs from other spans of the same block", req);
@@ -484,12 +547,12 @@ struct Runner {
         unknown_retained--;
         bm.from_reset = true;
         from_reset_block = true;
-        ctx.cls("alloc_reused_reset_block");
+        cls("alloc_reused_reset_block");
       } else {
         CK(st.block_count() == Bc + 1, "stat-block-count", "alloc(%zu) into a new block: block_count() %zu -> %zu", req, Bc, st.block_count());
         Bc++;
         bm.cap = st.reserved_size() - last.reserved_size();
-        ctx.cls("alloc_new_block");
+        cls("alloc_new_block");
       }
       blocks[s._block] = bm;
     }
@@ -497,34 +560,43 @@ struct Runner {
     SpanM sm;
     sm.span = s;
     sm.block = s._block;
-    sm.data.resize(size);
     const uint8_t* prx = static_cast<const uint8_t*>(s.rx());
     if (fill) {
       // unused memory always carries the pattern => so does a fresh span
       if (from_reset_block) {
         size_t i = 0;
+        while (i < size && memcmp(prx + i, patpage + (rx & 3), std::min<size_t>(size - i, 4096)) == 0) i += std::min<size_t>(size - i, 4096);
         while (i < size && prx[i] == pat[(rx + i) & 3]) i++;
         if (i < size) {
           // known-finding path (the stale bytes stay until this span is released, which refills them)
           fail_unless_known("soft-reset-not-filled", "alloc from the block kept by reset(kSoft): byte %zu of %zu is 0x%02x, fill pattern 0x%08x expects 0x%02x", i, size, prx[i], pattern, pat[(rx + i) & 3]);
-          ctx.cls("alloc_from_reset_block_stale_bytes");
+          cls("alloc_from_reset_block_stale_bytes");
         }
       } else {
         check_filled(prx, size, "alloc-not-filled", "alloc (fresh span)");
         if (rw != rx) check_filled(static_cast<const uint8_t*>(s.rw()), size, "alloc-not-filled", "alloc (fresh span, rw view)");
       }
     }
-    if (init == 1) {
-      gen_bytes(sm.data.data(), size, seed);
-      { VirtMem::ProtectJitReadWriteScope scope(s.rx(), size); memcpy(s.rw(), sm.data.data(), size); }
-      VirtMem::flush_instruction_cache(s.rx(), size);
-    } else if (init == 2) {
-      gen_bytes(sm.data.data(), size, seed ^ 0x55);
-      Error we = A.write(sm.span, 0, sm.data.data(), size);
-      CK(we == Error::kOk, "write-failed", "write(span, 0, size %zu) error %u", size, unsigned(we));
-      CK(sm.span.size() == size && sm.span.rx() == s.rx(), "write-changed-span", "write(offset form) changed the span");
-    } else {
-      memcpy(sm.data.data(), prx, size);
+    sm.data.snapshot(prx, size);
+    if (init) {
+      // initial contents: the tracked windows (whole span when small)
+      size_t w1 = sm.data.head.size();
+      std::vector<uint8_t> buf(w1 + sm.data.tail.size());
+      gen_bytes(buf.data(), buf.size(), seed ^ uint64_t(init));
+      size_t toff = size - sm.data.tail.size();
+      if (init == 1) {
+        { VirtMem::ProtectJitReadWriteScope scope(s.rx(), size);
+          memcpy(s.rw(), buf.data(), w1);
+          if (buf.size() > w1) memcpy(static_cast<uint8_t*>(s.rw()) + toff, buf.data() + w1, buf.size() - w1); }
+        VirtMem::flush_instruction_cache(s.rx(), size);
+      } else {
+        Error we = A.write(sm.span, 0, buf.data(), w1);
+        if (we == Error::kOk && buf.size() > w1) we = A.write(sm.span, toff, buf.data() + w1, buf.size() - w1);
+        CK(we == Error::kOk, "write-failed", "write(span, offset form) into a span of %zu bytes: error %u", size, unsigned(we));
+        CK(sm.span.size() == size && sm.span.rx() == s.rx(), "write-changed-span", "write(offset form) changed the span");
+      }
+      sm.data.write(0, buf.data(), w1);
+      if (buf.size() > w1) sm.data.write(toff, buf.data() + w1, buf.size() - w1);
     }
     sm.pos = order.size();
     sm.serial = ++serial_no;
@@ -533,18 +605,18 @@ struct Runner {
     sum += size;
     auto ins = live.emplace(rx, std::move(sm));
     SpanM* res = &ins.first->second;
-    check_content(*res, size <= 65536, where);
+    check_content(*res, true, where);
     check_neighbors(rx, where);
     check_stats(where);
     if (freed_something) alloc_after_free = true;
     note_block_fill(s._block, req);
 
     // class counters
-    if (req % G == 0) ctx.cls("alloc_size_granule_multiple");
-    else if (req % G == 1 || req % G == G - 1) ctx.cls("alloc_size_granule_edge");
-    if (req >= B0) ctx.cls(req > 2 * size_t(B0) ? "alloc_size_over_2_blocks" : "alloc_size_block_or_more");
-    else if (req + 2 * G >= B0) ctx.cls("alloc_size_near_block");
-    if (req <= G) ctx.cls("alloc_size_one_granule");
+    if (req % G == 0) cls("alloc_size_granule_multiple");
+    else if (req % G == 1 || req % G == G - 1) cls("alloc_size_granule_edge");
+    if (req >= B0) cls(req > 2 * size_t(B0) ? "alloc_size_over_2_blocks" : "alloc_size_block_or_more");
+    else if (req + 2 * G >= B0) cls("alloc_size_near_block");
+    if (req <= G) cls("alloc_size_one_granule");
     if (g_trace) fprintf(stderr, "  alloc(%zu) -> rx %p size %zu block %p blocks %zu\n", req, s.rx(), size, s._block, Bc);
     note("A%zu ", req);
     return res;
@@ -566,16 +638,25 @@ struct Runner {
       if (bm.cap ? used == bm.cap : (used >= 2 * size_t(B0) && used % B0 == 0)) full = true;
     }
     if (!full) return;
-    ctx.cls("block_exactly_full");
+    cls("block_exactly_full");
     (void)req;
     if (ctx.is_known("full-block-stale-search-range") && !truncated) {
       truncated = true;
       ctx.known_excluded("full-block-stale-search-range");
-      ctx.cls("history_cut_full_block_known");
+      cls("history_cut_full_block_known");
     }
   }
 
-  SpanM& pick(int64_t i) { return live.at(order[size_t(u(i) % order.size())]); }
+  // i >= 0: position in an address independent list; -1: newest span, -2: oldest span (by allocation serial)
+  SpanM& pick(int64_t i) {
+    if (i >= 0 || i < -2) return live.at(order[size_t(u(i) % order.size())]);
+    size_t best = 0;
+    for (size_t j = 1; j < order.size(); j++) {
+      uint64_t a = live.at(order[j]).serial, b = live.at(order[best]).serial;
+      if (i == -1 ? a > b : a < b) best = j;
+    }
+    return live.at(order[best]);
+  }
 
   void forget_span(SpanM& sm) {
     uintptr_t rx = uintptr_t(sm.span.rx());
@@ -601,13 +682,13 @@ struct Runner {
       CK(st.block_count() == Bc, "stat-block-count", "%s: block still has live spans but block_count() %zu -> %zu", where, Bc, st.block_count());
     } else if (st.block_count() == Bc) {
       known_empty++;
-      ctx.cls("release_block_emptied_kept");
+      cls("release_block_emptied_kept");
     } else {
       CK(st.block_count() + 1 == Bc, "stat-block-count", "%s: block_count() %zu -> %zu after one block became empty", where, Bc, st.block_count());
       Bc--;
       blocks.erase(bit);
       exists = false;
-      ctx.cls("release_block_emptied_deleted");
+      cls("release_block_emptied_deleted");
       // pointers into a deleted block are forgotten: a later mapping may reuse the addresses
       released.erase(std::remove_if(released.begin(), released.end(), [&](const RelPtr& r) { return r.block == block; }), released.end());
     }
@@ -620,7 +701,7 @@ struct Runner {
   }
 
   void do_release(int64_t i, bool via_shrink0) {
-    if (order.empty()) { ctx.cls("noop_empty"); return; }
+    if (order.empty()) { cls("noop_empty"); return; }
     SpanM& sm = pick(i);
     const char* where = via_shrink0 ? "shrink(span, 0)" : "release";
     check_content(sm, true, where);                       // contents are kept until released
@@ -653,7 +734,7 @@ struct Runner {
     check_neighbors(rx, where);
     check_policy(where);
     freed_something = true;
-    ctx.cls(via_shrink0 ? "shrink_to_zero" : "release");
+    cls(via_shrink0 ? "shrink_to_zero" : "release");
     note("R%zu ", size);
   }
 
@@ -666,7 +747,7 @@ struct Runner {
     else CK(ns <= align_up(new_size, 4 * size_t(G)), "shrink-wrong-size", "%s: %zu -> %zu bytes requested, span size became %zu", where, old_size, new_size, ns);
     uintptr_t rx = uintptr_t(sm.span.rx());
     sm.span._size = ns;
-    sm.data.resize(ns);
+    sm.data.shrink(ns, reinterpret_cast<const uint8_t*>(rx));
     rwmap[uintptr_t(sm.span.rw())] = ns;
     sum -= old_size - ns;
     blocks.at(sm.block).bytes -= old_size - ns;
@@ -683,13 +764,13 @@ struct Runner {
       if (old_size - ns > G && !containing(rx + old_size - G)) expect_query_rejected(reinterpret_cast<void*>(rx + old_size - G), "query(last shrunk-away granule)");
       remember_released(rx + ns, sm.block);
       freed_something = true;
-      ctx.cls("shrink_freed_granules");
-    } else ctx.cls("shrink_same_granules");
+      cls("shrink_freed_granules");
+    } else cls("shrink_same_granules");
     check_neighbors(rx, where);
   }
 
   void do_shrink(int64_t i, int64_t mode_, uint64_t v, int64_t via) {
-    if (order.empty()) { ctx.cls("noop_empty"); return; }
+    if (order.empty()) { cls("noop_empty"); return; }
     int mode = int(u(mode_) % 8);
     if (mode == 0) { do_release(i, true); return; }
     SpanM& sm = pick(i);
@@ -718,7 +799,7 @@ struct Runner {
       check_unchanged("shrink(larger size)");
       query_live_start(sm, "after rejected shrink");
       check_content(sm, true, "after rejected shrink");
-      ctx.cls("shrink_larger_rejected");
+      cls("shrink_larger_rejected");
       note("S+ ", 0);
       return;
     }
@@ -734,7 +815,7 @@ struct Runner {
     if (mode == 0) {
       query_live_start(pick(i), "query(live start)");
       check_unchanged("query(live start)");
-      ctx.cls("query_live_start");
+      cls("query_live_start");
     } else if (mode == 1 || mode == 2) {
       SpanM& sm = pick(i);
       size_t size = sm.span.size();
@@ -750,7 +831,7 @@ struct Runner {
       CK((uint8_t*)out.rw() - orx == (uint8_t*)sm.span.rw() - srx, "query-wrong-pointer", "query(rx + %zu): rw/rx views inconsistent", off);
       if (off < G) CK(orx == srx && out.size() == size, "query-wrong-size", "query(rx + %zu) within the first granule: size %zu, expected %zu", off, out.size(), size);
       check_unchanged("query(interior)");
-      ctx.cls(mode == 2 ? "query_first_granule" : "query_interior");
+      cls(mode == 2 ? "query_first_granule" : "query_interior");
     } else if (mode == 3) {
       RelPtr r = released[size_t(v % released.size())];
       if (containing(r.rx)) {
@@ -760,10 +841,10 @@ struct Runner {
         Error e = A.query(Out(out), reinterpret_cast<void*>(r.rx));
         CK(e == Error::kOk, "query-live-failed", "query(reused pointer inside a live span) error %u", unsigned(e));
         CK(uintptr_t(out.rx()) + out.size() == uintptr_t(sm->span.rx()) + sm->span.size(), "query-wrong-size", "query(reused pointer): wrong end");
-        ctx.cls("query_released_reused");
+        cls("query_released_reused");
       } else {
         expect_query_rejected(reinterpret_cast<void*>(r.rx), "query(released pointer)");
-        ctx.cls("query_released_rejected");
+        cls("query_released_rejected");
       }
     } else {
       uint8_t local[64];
@@ -771,13 +852,13 @@ struct Runner {
       void* cands[] = {nullptr, local + 8, heap.data() + 16, g_static_foreign + 64, reinterpret_cast<void*>(uintptr_t(64)), reinterpret_cast<void*>(~uintptr_t(0) - 63)};
       void* p = cands[v % 6];
       expect_query_rejected(p, "query(foreign pointer)");
-      ctx.cls("query_foreign_rejected");
+      cls("query_foreign_rejected");
     }
     note("Q%zu ", size_t(mode));
   }
 
   void do_write(int64_t i, int64_t form_, uint64_t off_, uint64_t len_, uint64_t seed) {
-    if (order.empty()) { ctx.cls("noop_empty"); return; }
+    if (order.empty()) { cls("noop_empty"); return; }
     int form = int(u(form_) % 8);
     SpanM& sm = pick(i);
     size_t size = sm.span.size();
@@ -786,6 +867,7 @@ struct Runner {
       size_t off = off_ % (size + 1);
       size_t len = (size - off) ? len_ % (size - off + 1) : 0;
       if (len_ % 5 == 0) { off = 0; len = size; }
+      if (len > 4096) { len = 4096; if (len_ % 2) off = size - len; }   // large spans: bounded amount of data, often at the end
       std::vector<uint8_t> buf(len);
       gen_bytes(buf.data(), len, seed);
       Error e = Error::kOk;
@@ -797,9 +879,9 @@ struct Runner {
       }
       CK(e == Error::kOk, "write-failed", "write(offset %zu, %zu bytes) into a span of %zu bytes: error %u", off, len, size, unsigned(e));
       CK(sm.span.rx() == before.rx() && sm.span.rw() == before.rw() && sm.span.size() == size, "write-changed-span", "write(offset form) changed the span");
-      if (len) memcpy(sm.data.data() + off, buf.data(), len);
+      if (len) sm.data.write(off, buf.data(), len);
       check_content(sm, true, "write (visible through rx)");
-      ctx.cls(form == 0 ? "write_offset" : form == 3 ? "write_scope_offset" : "write_direct_rw");
+      cls(form == 0 ? "write_offset" : form == 3 ? "write_scope_offset" : "write_direct_rw");
     } else if (form == 5) {
       size_t off, len;
       switch (off_ % 5) {
@@ -817,7 +899,7 @@ struct Runner {
       CK(sm.span.size() == size && sm.span.rx() == before.rx(), "write-changed-span", "rejected write changed the span");
       check_content(sm, true, "after rejected write");
       check_unchanged("write(out of range)");
-      ctx.cls("write_out_of_range_rejected");
+      cls("write_out_of_range_rejected");
     } else if (form == 6) {
       CbData d;
       Error e = A.write(sm.span, cb_fail, &d);
@@ -826,33 +908,34 @@ struct Runner {
       CK(sm.span.size() == size && sm.span.rx() == before.rx(), "write-changed-span", "failed callback write changed the span");
       check_content(sm, true, "after failed callback write");
       check_unchanged("write(callback error)");
-      ctx.cls("write_callback_error");
+      cls("write_callback_error");
     } else {
       // callback forms: 1 full, 2 truncating, 4 scope (truncating when len_ is odd)
       bool trunc = form == 2 || (form == 4 && (len_ & 1));
       size_t n = trunc ? 1 + off_ % size : size;      // bytes written == new size
       if (trunc && len_ % 7 == 0) n = size > G ? size - G : size;
-      std::vector<uint8_t> buf(n);
-      gen_bytes(buf.data(), n, seed);
+      size_t wn = std::min<size_t>(n, 4096);           // bytes the callback writes at the start of the span
+      std::vector<uint8_t> buf(wn);
+      gen_bytes(buf.data(), wn, seed);
       CbData d;
       d.src = buf.data();
-      d.n = n;
+      d.n = wn;
       d.truncate = trunc ? n : 0;
       Error e;
       if (form == 4) { JitAllocator::WriteScope ws(A); e = ws.write(sm.span, cb_full, &d); }
       else e = A.write(sm.span, cb_full, &d);
       CK(d.calls == 1 && d.seen_size == size && d.seen_rw == before.rw(), "write-callback", "callback: calls %d, span size seen %zu (expected %zu)", d.calls, d.seen_size, size);
       CK(e == Error::kOk, "write-failed", "write(callback%s) error %u (span %zu bytes, truncated to %zu)", trunc ? ", truncating" : "", unsigned(e), size, n);
-      memcpy(sm.data.data(), buf.data(), n);
+      sm.data.write(0, buf.data(), wn);
       if (trunc) {
         Span after = sm.span;
         sm.span = before;
         after_shrink(sm, after, size, n, "write(truncating callback)");
-        ctx.cls(form == 4 ? "write_scope_callback_truncate" : "write_callback_truncate");
+        cls(form == 4 ? "write_scope_callback_truncate" : "write_callback_truncate");
       } else {
         CK(sm.span.rx() == before.rx() && sm.span.size() == size, "write-changed-span", "write(callback) changed the span");
         check_content(sm, true, "write(callback)");
-        ctx.cls(form == 4 ? "write_scope_callback" : "write_callback");
+        cls(form == 4 ? "write_scope_callback" : "write_callback");
       }
     }
     note("W%zu ", size_t(form));
@@ -864,7 +947,7 @@ struct Runner {
       // Known finding: reset(kSoft) re-inserts the kept block into the (emptied) block tree with its old child links / colour still
       // set -> ASMJIT_ASSERT in ArenaTree::insert (debug) or dangling links (release). Only reachable with >= 2 blocks; excluded then.
       ctx.known_excluded("soft-reset-stale-tree-links");
-      ctx.cls("reset_soft_excluded_known");
+      cls("reset_soft_excluded_known");
       hard = true;
       where = "reset(kHard) [instead of kSoft: known finding]";
     }
@@ -879,7 +962,7 @@ struct Runner {
     if (st.allocation_count() != 0) {
       // known-finding path: remember the stale count so that the rest of the history can still be judged
       fail_unless_known("reset-allocation-count", "%s: allocation_count() is %zu after reset (no span is live)", where, st.allocation_count());
-      ctx.cls("reset_left_allocation_count");
+      cls("reset_left_allocation_count");
     }
     count_bias = st.allocation_count();
     if (hard || immediate) CK(st.block_count() == 0, "reset-residue", "%s: %zu block(s) kept (had %zu)%s", where, st.block_count(), blocks_before, immediate ? " with immediate release" : "");
@@ -888,15 +971,15 @@ struct Runner {
     unknown_retained = Bc;
     check_stats(where);
     for (void* p : old) expect_query_rejected(p, "query(pointer from before reset)");
-    ctx.cls(hard ? "reset_hard" : "reset_soft");
-    if (!hard && Bc) ctx.cls("reset_soft_kept_block");
+    cls(hard ? "reset_hard" : "reset_soft");
+    if (!hard && Bc) cls("reset_soft_kept_block");
     freed_something = true;
     note(hard ? "Xh " : "Xs ", 0);
   }
 
   // release(i) [or shrink(i)] immediately followed by an allocation that fits into the freed bytes: no new block may be needed
   void do_reuse(int64_t i, uint64_t v) {
-    if (order.empty()) { ctx.cls("noop_empty"); return; }
+    if (order.empty()) { cls("noop_empty"); return; }
     SpanM& sm = pick(i);
     size_t size = sm.span.size();
     bool was_shrunk = sm.shrunk;
@@ -918,7 +1001,7 @@ struct Runner {
     SpanM* n = do_alloc(req, int((v >> 4) % 3), v, "alloc after free");
     if (!n) return;
     CK(Bc <= blocks_before, "freed-memory-not-reused", "%s of %zu bytes followed by alloc(%zu) needed a new block (%zu -> %zu blocks)", by_shrink ? "shrink" : "release", size, req, blocks_before, Bc);
-    ctx.cls(by_shrink ? "reuse_after_shrink" : "reuse_after_release");
+    cls(by_shrink ? "reuse_after_shrink" : "reuse_after_release");
   }
 
   void do_reject(int64_t which_) {
@@ -934,7 +1017,7 @@ struct Runner {
     else { Span s; uint8_t b = 0; e = A.write(s, 0, &b, 1); what = "write(empty span)"; }
     CK(e != Error::kOk, "foreign-pointer-accepted", "%s returned kOk", what);
     check_unchanged(what);
-    ctx.cls("foreign_call_rejected");
+    cls("foreign_call_rejected");
     note("J ", 0);
   }
 
@@ -951,7 +1034,7 @@ struct Runner {
       case K_QUERY: do_query(arg(op, 1), arg(op, 2), u(arg(op, 3))); break;
       case K_WRITE: do_write(arg(op, 1), arg(op, 2), u(arg(op, 3)), u(arg(op, 4)), u(arg(op, 5))); break;
       case K_RESET: do_reset((arg(op, 1) & 1) != 0, (arg(op, 1) & 1) ? "reset(kHard)" : "reset(kSoft)"); break;
-      case K_STATS: full_audit("audit"); ctx.cls("audit"); break;
+      case K_STATS: full_audit("audit"); cls("audit"); break;
       case K_BURST: {
         if (depth) break;
         uint64_t s = u(arg(op, 1)) * 0x9E3779B97F4A7C15ull + 17;
@@ -969,8 +1052,8 @@ struct Runner {
         }
         in_burst = false;
         want_sample = saved;
-        ctx.cls("burst");
-        ctx.cls("burst_ops", count);
+        cls("burst");
+        cls("burst_ops", count);
         note("B%zu ", count);
         break;
       }
@@ -997,7 +1080,7 @@ struct Runner {
         do_release(int64_t(idx), false);
         k++;
       }
-      ctx.cls(mode == 0 ? "final_release_fifo" : mode == 1 ? "final_release_lifo" : "final_release_mixed");
+      cls(mode == 0 ? "final_release_fifo" : mode == 1 ? "final_release_lifo" : "final_release_mixed");
     } else {
       do_reset(mode == 4, mode == 4 ? "final reset(kHard)" : "final reset(kSoft)");
     }
@@ -1006,7 +1089,7 @@ struct Runner {
     size_t p = pad ? 1 : 0;
     CK(st.used_size() >= Bc * G * p && st.used_size() <= Bc * G * p * (multi ? 4 : 1), "final-residue", "after releasing everything used_size() is %zu with %zu blocks", st.used_size(), Bc);
     check_policy("after releasing everything");
-    if (n0) ctx.cls("final_had_live");
+    if (n0) cls("final_had_live");
     // the allocator still works and hands out clean memory
     SpanM* sm = do_alloc(G * 3 + 1, 1, 99, "alloc after everything was released");
     if (sm) do_release(int64_t(sm->pos), false);
@@ -1054,11 +1137,11 @@ static Setup make_setup(const vh::Case& c, vh::Ctx& ctx) {
   return s;
 }
 
-static void run_history(const vh::Case& c, const std::vector<vh::Op>& ops, vh::Ctx& ctx, const std::string& hist, bool classes) {
+static void run_history(const vh::Case& c, const std::vector<vh::Op>& ops, vh::Ctx& ctx, bool exhaustive, bool classes) {
   Setup su = make_setup(c, ctx);
   JitAllocator A(&su.params);
   Runner R(ctx, A);
-  R.hist = hist;
+  if (exhaustive) R.hist_ops = &ops;
 
   // ---- construction ----
   if (!A.is_initialized())
@@ -1088,6 +1171,7 @@ static void run_history(const vh::Case& c, const std::vector<vh::Op>& ops, vh::C
 #endif
   }
   memcpy(R.pat, &R.pattern, 4);
+  for (size_t i = 0; i < sizeof R.patpage; i++) R.patpage[i] = R.pat[i & 3];
   if (R.fill && A.fill_pattern() != R.pattern) R.failv("create-params", "fill_pattern() 0x%08x, expected 0x%08x", A.fill_pattern(), R.pattern);
   R.want_sample = classes && ctx.want_sample();
   R.check_stats("fresh allocator");
@@ -1117,6 +1201,74 @@ static void run_history(const vh::Case& c, const std::vector<vh::Op>& ops, vh::C
       ctx.sample(std::string(b) + R.sample);
     }
   }
+}
+
+// ---- bounded-exhaustive sweep ------------------------------------------------------------------------------------
+// Alphabet of 11 operations; a batch = (option set, granularity, prefix of 0..2 symbols); the batch runs every history
+// prefix + suffix with |suffix| <= depth (cfg[5]), each on a fresh allocator.
+static const int kExhSymbols = 11;
+static vh::Op exh_op(int sym) {
+  switch (sym) {
+    case 0: case 1: case 2: case 3: case 4: case 5: return vh::Op{K_ALLOC, 7, sym, 0, 1};
+    case 6: return vh::Op{K_RELEASE, -2};
+    case 7: return vh::Op{K_RELEASE, -1};
+    case 8: return vh::Op{K_SHRINK, -2, 1, 0, 0};
+    case 9: return vh::Op{K_SHRINK, -1, 4, 0, 1};
+    default: return vh::Op{K_RESET, 0};
+  }
+}
+static const char* const kExhNames[] = {"alloc(1)", "alloc(2G+1)", "alloc(B)", "alloc(2B-2G)", "alloc(2B-G)", "alloc(2B+1)", "release(oldest)", "release(newest)",
+                                        "shrink(oldest,1)", "shrink(newest,size-G)", "reset(kSoft)"};
+static const uint32_t kExhOpts[] = {0, O_FILL, O_FILL | O_CUSTOM, O_IMMEDIATE, O_NOPAD, O_MULTI, O_DUAL | O_FILL, O_MULTI | O_FILL | O_IMMEDIATE, O_NOPAD | O_IMMEDIATE | O_FILL, O_LARGE | O_ALIGNLARGE};
+static const size_t kExhOptCount = sizeof(kExhOpts) / sizeof(kExhOpts[0]);
+static const size_t kExhPrefixes = 1 + kExhSymbols + kExhSymbols * kExhSymbols;
+static const size_t kExhBatches = kExhOptCount * 2 * kExhPrefixes;
+
+static vh::Case exh_case(size_t batch, int depth) {
+  vh::Case c;
+  size_t pfx = batch % kExhPrefixes; batch /= kExhPrefixes;
+  size_t o = batch % kExhOptCount; batch /= kExhOptCount;
+  size_t gsel = batch % 2 ? 3 : 0;      // second half of the batches: granularity 256
+  c.cfg = {int64_t(kExhOpts[o]), 0, int64_t(gsel), 0, int64_t(o % 3), depth, 0};
+  if (pfx >= 1 && pfx <= size_t(kExhSymbols)) c.ops.push_back(exh_op(int(pfx - 1)));
+  else if (pfx > size_t(kExhSymbols)) { size_t q = pfx - 1 - kExhSymbols; c.ops.push_back(exh_op(int(q / kExhSymbols))); c.ops.push_back(exh_op(int(q % kExhSymbols))); }
+  return c;
+}
+
+static std::string op_text(const vh::Op& op) {
+  for (int sym = 0; sym < kExhSymbols; sym++) if (exh_op(sym) == op) return kExhNames[sym];
+  std::string t = "op";
+  for (int64_t v : op) t += " " + std::to_string(v);
+  return t;
+}
+
+std::string Runner::hist_text() const {
+  std::string t;
+  for (const vh::Op& op : *hist_ops) { if (!t.empty()) t += ", "; t += op_text(op); }
+  return t.empty() ? std::string("(no operations)") : t;
+}
+
+static uint64_t run_exhaustive(const vh::Case& c, vh::Ctx& ctx) {
+  int depth = int(std::min<uint64_t>(uint64_t(c.cfg[5]), 4));
+  std::vector<vh::Op> ops = c.ops;
+  size_t base = ops.size();
+  uint64_t count = 0;
+  std::vector<int> suffix;
+  // iterative enumeration of all suffixes of length 0..depth
+  std::function<void()> rec = [&]() {
+    run_history(c, ops, ctx, true, false);
+    count++;
+    if (int(ops.size() - base) >= depth) return;
+    for (int sym = 0; sym < kExhSymbols; sym++) {
+      ops.push_back(exh_op(sym));
+      rec();
+      ops.pop_back();
+    }
+  };
+  rec();
+  ctx.cls("exhaustive_batches");
+  ctx.cls("exhaustive_histories", count);
+  return count;
 }
 
 } // namespace
@@ -1152,5 +1304,43 @@ rc::Gen<vh::Case> vh_gen(const vh::Opts& o) {
 }
 
 void vh_run(const vh::Case& c, vh::Ctx& ctx) {
-  run_history(c, c.ops, ctx, std::string(), true);
+  if (c.cfg.size() > 5 && c.cfg[5] > 0) { run_exhaustive(c, ctx); ctx.nontrivial(); return; }
+  run_history(c, c.ops, ctx, false, true);
+}
+
+// Deterministic bounded-exhaustive tier: before the random histories every worker runs its slice of all batches
+// (all histories of depth <= 2 + suffix depth over the 11-symbol alphabet, for 10 option sets x granularity 64/256).
+// A failure is reported with the same protocol as the main loop (replay file + "FAIL key=... replay=... msg=...").
+void vh_init(const vh::Opts& o, vh::Ctx& ctx) {
+  if (!o.replay.empty() || o.geti("exh", 1) == 0) return;
+  int depth = int(o.geti("exh-depth", o.is_thorough() ? 3 : 2));
+  uint64_t histories = 0, batches = 0;
+  size_t workers = size_t(std::max(1, o.workers));
+  // quick: granularity 64 only (first half of the batches), suffix depth 2; thorough: everything, suffix depth 3
+  size_t nbatches = size_t(o.geti("exh-batches", o.is_thorough() ? long(kExhBatches) : long(kExhBatches / 2)));
+  nbatches = std::min(nbatches, kExhBatches);
+  for (size_t b = size_t(o.worker) % workers; b < nbatches; b += workers) {
+    vh::Case c = exh_case(b, depth);
+    try {
+      histories += run_exhaustive(c, ctx);
+      batches++;
+    } catch (const vh::Failure& f) {
+      char wb[64];
+      snprintf(wb, sizeof wb, "/w%d", o.worker);
+      vh::mkdirs(o.out_dir);
+      std::string rp = o.out_dir + wb + ".case";
+      vh::write_file(rp, "# property C09 key=" + f.key + " (bounded-exhaustive batch)\n# " + f.msg + "\n" + c.to_text() + "end\n");
+      ctx.evaluations += histories;
+      vh::dump_counters(ctx, o.out_dir + wb + ".json", "fail", rp, f.key, f.msg);
+      printf("FAIL key=%s replay=%s msg=%s\n", f.key.c_str(), rp.c_str(), f.msg.c_str());
+      fflush(stdout);
+      _exit(1);
+    }
+  }
+  ctx.evaluations += histories;
+  ctx.nontrivial_evals += histories;
+  char note[200];
+  snprintf(note, sizeof note, "bounded-exhaustive tier: every worker ran its slice of the first %zu of %zu batches completely (all histories of <= %d operations over %d symbols per option set)", nbatches, kExhBatches, 2 + depth, kExhSymbols);
+  ctx.notes.push_back(note);
+  ctx.cls("exhaustive_slices_completed");
 }
